@@ -558,6 +558,56 @@ fn catalogue_case(&(name, code, kind): &(&str, u8, &str)) -> (u64, Vec<Violation
     (n, vs)
 }
 
+/// Every way the manual lets a duration be written, as the value of a seconds-typed option
+/// (arp-timeout, option 35, 32 bits) and of a 16-bit one (max-reassembly, option 21) where it fits.
+fn duration_case((sp, secs): &(String, u64)) -> (u64, Vec<Violation>) {
+    let mut vs = vec![];
+    let mut n = 0;
+    for (name, code, bits) in [("arp-timeout", 35u8, 32u32), ("max-reassembly", 21, 16)] {
+        if bits == 16 && *secs > 65535 {
+            continue;
+        }
+        let yaml = format!("---\ndhcp-policies:\n  - match-subnet: 192.0.2.0/24\n    apply-range: {{start: 192.0.2.10, end: 192.0.2.20}}\n    apply-{name}: '{sp}'\n");
+        let case = json!({"engine":"c11","family":"durations","yaml":yaml,"spelling":sp,"seconds":secs});
+        let conf = match panics::catch(|| erbium::config::verif_load_config_from_string(&yaml)) {
+            Ok(Ok(c)) => c,
+            Ok(Err(e)) => {
+                vs.push(Violation::new("config-rejected", format!("apply-{name}: '{sp}' (a duration as erbium.conf(5) describes them, {secs} s) is rejected: {e}"), case).sig("family", "durations"));
+                continue;
+            }
+            Err(p) => {
+                vs.push(Violation::new("load-panic", format!("loader panicked: {}", p.msg), case).sig("family", "durations"));
+                continue;
+            }
+        };
+        let g = conf.try_read().expect("conf");
+        crate::common::clock::set_secs(crate::ehist::NOW0 as u64);
+        let mut p = pool::Pool::new_in_memory().expect("pool");
+        n += 1;
+        let r = Req { serverip: IF_S1, mac: M1, host: None, params: vec![code], if_mtu: None, if_router: None };
+        match panics::catch(|| dhcp::handle_pkt(&mut p, &mk_req(&r, 1), Default::default(), &g)) {
+            Err(pi) => vs.push(Violation::new("handler-panic", format!("handle_pkt panicked: {} at {}", pi.msg, panics::short_loc(&pi.loc)), case).sig("family", "durations")),
+            Ok(Err(e)) => vs.push(Violation::new("reply-missing", format!("no reply ({:?})", e), case).sig("family", "durations")),
+            Ok(Ok(reply)) => {
+                use dhcppkt::Serialise as _;
+                let mut got: Option<Vec<u8>> = None;
+                for (k, v) in &reply.options.other {
+                    let mut b = vec![];
+                    k.serialise(&mut b);
+                    if b[0] == code {
+                        got = Some(v.clone());
+                    }
+                }
+                let want = if bits == 32 { (*secs as u32).to_be_bytes().to_vec() } else { (*secs as u16).to_be_bytes().to_vec() };
+                if got.as_ref() != Some(&want) {
+                    vs.push(Violation::new("options-differ", format!("apply-{name}: '{sp}' means {secs} s; option {code} sent {:?}", got.map(|v| crate::common::util::hex(&v))), case).sig("family", "durations"));
+                }
+            }
+        }
+    }
+    (n, vs)
+}
+
 // ---------------------------------------------------------------------------
 // subnet widths: netmask and broadcast of the matched subnet, for every prefix length
 // ---------------------------------------------------------------------------
@@ -631,6 +681,12 @@ pub fn run(tier: &str, replay: Option<Value>) -> ! {
         rep.replay_mode = true;
         let case = if case.get("case").is_some() { case["case"].clone() } else { case };
         let y = case["yaml"].as_str().unwrap_or("").to_string();
+        if case["family"].as_str() == Some("durations") {
+            let sp = case["spelling"].as_str().unwrap_or("").to_string();
+            rep.violations_from(duration_case(&(sp, case["seconds"].as_u64().unwrap_or(0))).1);
+            rep.violations.retain(|v| v.case["yaml"] == case["yaml"]);
+            rep.finish();
+        }
         if case["family"].as_str() == Some("subnet-width") {
             rep.violations_from(width_case(&(case["len"].as_u64().unwrap_or(24) as u32, case["override"].as_bool().unwrap_or(false))).1);
             if let Some(r) = case.get("request") {
@@ -721,6 +777,9 @@ pub fn run(tier: &str, replay: Option<Value>) -> ! {
     let wd: Vec<(u64, Vec<Violation>)> = widths.par_iter().map(width_case).collect();
     let wd_n: u64 = wd.iter().map(|c| c.0).sum();
     outs2.extend(wd.into_iter().map(|(k, vs)| (k, std::collections::BTreeSet::new(), vs)));
+    let du: Vec<(u64, Vec<Violation>)> = crate::checks::c17::duration_spellings().par_iter().map(duration_case).collect();
+    let du_n: u64 = du.iter().map(|c| c.0).sum();
+    outs2.extend(du.into_iter().map(|(k, vs)| (k, std::collections::BTreeSet::new(), vs)));
     let cat_n: u64 = cat.iter().map(|c| c.0).sum();
     outs2.extend(cat.into_iter().map(|(k, vs)| (k, std::collections::BTreeSet::new(), vs)));
     let mut n = 0;
@@ -738,9 +797,9 @@ pub fn run(tier: &str, replay: Option<Value>) -> ! {
     crate::common::clock::unset();
     rep.cov("evaluations", n);
     rep.cov("distinct_nontrivial", (trees.len() + ov.len()) as u64);
-    rep.cov("rule", "structure sweep: match alphabet {none, subnet S1, subnet S2, hardware address M1, host-name h, host-name null, S1 and M1}; all policy trees of depth <=2 and width <=2 (quick: second top-level sibling with <=1 child), all depth-3 chains, all width-3 sibling lists (top level and under a condition-less parent); each node sets a marker option per depth so the reply shows which node applied; requests: 3 receiving addresses x 2 hardware addresses x host-name {absent,h,x} (DISCOVER and REQUEST). override sweep: chains of depth 1-3 x apply alphabet {none, dns-servers [v], dns-servers [$self4, v], dns-servers null, domain-name, mtu, netmask null} per level x top-level defaults {absent, present} x interface mtu/router x 4 parameter lists; every 7th of them (thorough: all) again under three other spellings of the top-level address list (IPv6 prefixes in front of / between the IPv4 ones, IPv4 ones swapped). subnet widths: match-subnet of every length 0..32 around the receiving address, with and without apply-netmask / apply-broadcast: null, x 4 parameter lists: netmask and broadcast are the matched subnet's unless overridden. catalogue: every option a policy can set by name (65 names, codes 1..252, 11 value syntaxes), one per configuration, with a value of its documented type: sent with exactly the RFC 2132/3397/3442 encoding iff the parameter request list names it (5 lists x DISCOVER/REQUEST). distinct_nontrivial = distinct configurations; evaluations = requests judged against the model");
+    rep.cov("rule", "structure sweep: match alphabet {none, subnet S1, subnet S2, hardware address M1, host-name h, host-name null, S1 and M1}; all policy trees of depth <=2 and width <=2 (quick: second top-level sibling with <=1 child), all depth-3 chains, all width-3 sibling lists (top level and under a condition-less parent); each node sets a marker option per depth so the reply shows which node applied; requests: 3 receiving addresses x 2 hardware addresses x host-name {absent,h,x} (DISCOVER and REQUEST). override sweep: chains of depth 1-3 x apply alphabet {none, dns-servers [v], dns-servers [$self4, v], dns-servers null, domain-name, mtu, netmask null} per level x top-level defaults {absent, present} x interface mtu/router x 4 parameter lists; every 7th of them (thorough: all) again under three other spellings of the top-level address list (IPv6 prefixes in front of / between the IPv4 ones, IPv4 ones swapped). durations: every duration spelling of the manual (106) as the value of a 32-bit and a 16-bit seconds option. subnet widths: match-subnet of every length 0..32 around the receiving address, with and without apply-netmask / apply-broadcast: null, x 4 parameter lists: netmask and broadcast are the matched subnet's unless overridden. catalogue: every option a policy can set by name (65 names, codes 1..252, 11 value syntaxes), one per configuration, with a value of its documented type: sent with exactly the RFC 2132/3397/3442 encoding iff the parameter request list names it (5 lists x DISCOVER/REQUEST). distinct_nontrivial = distinct configurations; evaluations = requests judged against the model");
     rep.cov("exhaustive", true);
-    rep.cov("parts", json!({"structure_configs": trees.len(), "override_configs": ov.len(), "catalogue_options": CATALOGUE.len(), "catalogue_requests": cat_n, "subnet_width_requests": wd_n}));
+    rep.cov("parts", json!({"structure_configs": trees.len(), "override_configs": ov.len(), "catalogue_options": CATALOGUE.len(), "catalogue_requests": cat_n, "subnet_width_requests": wd_n, "duration_spelling_requests": du_n}));
     rep.cov("outcome_classes", json!(classes));
     rep.cov("samples", json!([{"yaml": config_yaml(false, &trees[trees.len() / 3])}, {"yaml": config_yaml(true, &ov[ov.len() / 2].1)}]));
     rep.assume("don't-care: options 53/54/51; an empty search list present-but-empty vs absent; netmask/broadcast when two different match-subnets lie on the applied path (not generated)");
